@@ -203,7 +203,8 @@ static Gen gen_v4(vh::Rng& r) {
 static std::array<uint16_t, 8> rand_v6(vh::Rng& r) {
   std::array<uint16_t, 8> a;
   int style = (int)r.below(5);
-  for (auto& x : a) x = (style == 0) ? (uint16_t)r.next() : r.chance(style + 1, 6) ? 0 : (r.coin() ? (uint16_t)r.below(16) : (uint16_t)r.next());
+  static const uint16_t edge[] = {0x1, 0xF, 0x10, 0xFF, 0x100, 0xFFF, 0x1000, 0x1001, 0x7FFF, 0x8000, 0xFFFF};   // digit-count boundaries
+  for (auto& x : a) x = (style == 0) ? (uint16_t)r.next() : r.chance(style + 1, 6) ? 0 : r.chance(1, 4) ? r.pick(edge) : (r.coin() ? (uint16_t)r.below(16) : (uint16_t)r.next());
   if (r.chance(1, 10)) { a = {}; if (r.coin()) a[r.below(8)] = (uint16_t)(1 + r.below(0xFFFF)); }
   if (r.chance(1, 10)) { a = {0, 0, 0, 0, 0, 0xFFFF, (uint16_t)r.next(), (uint16_t)r.next()}; }
   return a;
